@@ -25,6 +25,8 @@ PROBES = ['fault_inside_pushed_block', 'handler_ran_after_fault',
           'tree_expand_all_transient', 'recursion_guard_fired',
           'in_batch_param_site', 'sort_key_cmp_site', 'attr_site',
           'falsy_mapping_pushed', 'tree_header_footer_document',
+          'recursive_sub_template_reentered', 'same_object_pushed_twice',
+          'client_path_of_two',
           'fault_between_in_push_and_try', 'let_arg_fault', 'persistent_fault']
 RULE = ('programs: seeded ASTs over text/var/if/elif/else/unless/call/in '
         '(lists, tuples, iterators, lazy lists, mappings, batches, sort, '
@@ -155,7 +157,8 @@ class Gen:
 
     def n_sub(self, depth):
         r = self.r
-        how = r.choice(['var', 'var', 'var', 'kw', 'client', 'call', 'if'])
+        how = r.choice(['var', 'var', 'var', 'kw', 'client', 'call', 'if',
+                        'clients2', 'clients0'])
         if self.subs and (len(self.subs) >= 2 or r.random() < 0.4):
             return {'k': 'sub', 'name': r.choice(sorted(self.subs)),
                     'how': how}
@@ -168,6 +171,31 @@ class Gen:
         self.subs[name] = {'body': b, 'defaults':
                            r.choice([{}, {'dflt': 'd'}, {'dflt': 'd',
                                                          'd2': 2}])}
+        if r.random() < 0.25:
+            # bounded self-recursion from a random body of the sub-template
+            # (preferably a loop body): the guard turns false after two calls
+            bodies = [x[0] for x in E.walk_bodies(b)]
+            loops = [x[0] for x in E.walk_bodies(b) if x[2] == 'in']
+            tb = r.choice(loops or bodies)
+            rc = self.site('RC')
+            self.script[rc] = [{'v': 1}, {'v': 1}, {'v': 0}]
+            last = max(parse_sent(n['site'])[1] for n in tb['n']
+                       if n['k'] == 'sent') if any(
+                n['k'] == 'sent' for n in tb['n']) else -1
+            if last >= 0:
+                ib = self._bid()
+                inner = {'b': ib, 'n': [
+                    {'k': 'sent', 'site': 'S_%s_0' % ib},
+                    {'k': 'sub', 'name': name, 'how': 'var'},
+                    {'k': 'sent', 'site': 'S_%s_1' % ib}]}
+                # (an expression, not a name: a named condition would be
+                # answered from the enclosing activation's if-cache)
+                tb['n'].append({'k': 'if', 'conds': [{'c': {
+                    'site': rc, 'how': 'call'}, 'body': inner}],
+                    'else': None})
+                tb['n'].append({'k': 'sent', 'site': 'S_%s_%d'
+                                % (tb['b'], last + 1)})
+                self.subs[name]['recursive'] = True
         return {'k': 'sub', 'name': name, 'how': how}
 
     def n_if(self, depth):
@@ -196,6 +224,8 @@ class Gen:
             elif kind == 'pair':
                 out.append({'pair': ['k%d' % i, {'obj': {'a': 'a%d' % i},
                                                  'sites': ['fa']}]})
+            elif kind == 'mixed' and i % 2:
+                out.append('s%d' % i)
             else:
                 attrs = {'a': 'a%d' % i, 'n': i % 2,
                          'k': {'key': '%s.k' % q, 'rank': (i * 7) % 5}}
@@ -205,7 +235,7 @@ class Gen:
     def n_in(self, depth):
         r = self.r
         q = self.site('Q')
-        kind = r.choice(['obj', 'obj', 'str', 'map', 'pair'])
+        kind = r.choice(['obj', 'obj', 'str', 'map', 'pair', 'mixed'])
         n = r.choice([0, 1, 2, 3, 4])
         resp = {'list': self.items(q, kind, n)}
         x = r.random()
@@ -254,6 +284,11 @@ class Gen:
         if r.random() < 0.1:
             opts['prefix'] = 'px'
         body = self.body(depth + 1)
+        if kind == 'map' and r.random() < 0.3:
+            # the item pushed by the loop is pushed again by a dtml-with
+            body['n'].insert(-1, {'k': 'with', 'src': {
+                'how': 'lit', 'lit': "_['sequence-item']"}, 'mapping': True,
+                'only': False, 'body': self.body(depth + 2)})
         if kind in ('obj', 'pair') and r.random() < 0.6:
             body['n'].insert(1, {'k': 'var', 'site': 'fa', 'attr_of': q})
         if kind != 'str' and kind != 'pair' and r.random() < 0.5:
@@ -272,9 +307,22 @@ class Gen:
                               'fallback': True}
         else:
             self.script[w] = {'obj': {'wv': 'w'}, 'fallback': True}
-        return {'k': 'with', 'src': {'site': w, 'how': r.choice(
+        node = {'k': 'with', 'src': {'site': w, 'how': r.choice(
             ['name', 'expr'])}, 'mapping': mapping, 'only': only,
             'body': self.body(depth + 1)}
+        if mapping and r.random() < 0.3:
+            # the identical mapping object pushed twice in a row
+            self.script[w]['same'] = True
+            inner = dict(node, body=self.body(depth + 2), only=False)
+            b = node['body']
+            pos = max(parse_sent(x['site'])[1] for x in b['n']
+                      if x['k'] == 'sent')
+            b['n'].insert(1, inner)
+            b['n'].insert(2, {'k': 'sent', 'site': 'S_%s_%d'
+                              % (b['b'], pos + 1)})
+            # keep positions increasing along the body
+            renumber(b)
+        return node
 
     def n_let(self, depth):
         r = self.r
@@ -342,6 +390,15 @@ class Gen:
             self.req['expand_all'] = 1
         return {'k': 'tree', 'src': {'site': t, 'how': 'name'}, 'opts': opts,
                 'body': self.body(self.maxdepth)}
+
+
+def renumber(b):
+    """give the sentinels of a body increasing positions again"""
+    pos = 0
+    for n in b['n']:
+        if n['k'] == 'sent':
+            n['site'] = 'S_%s_%d' % (b['b'], pos)
+            pos += 1
 
 
 class TNode:
@@ -541,17 +598,30 @@ def check(case, prep, env, outcome, md0, before, plan):
             v.append({'rule': 'whole_call', 'key': 'whole_call:level',
                       'detail': {'before': before[1], 'after': md0.level,
                                  'outcome': outcome}})
+    recbids = set()
+    if not rec:
+        for s_ in case['subs'].values():
+            if s_.get('recursive'):
+                recbids.update(b['b'] for b, _, _ in E.walk_bodies(
+                    s_['body']))
+
+    def keyof(bid, ev):
+        # inside a self-recursive sub-template one body has several
+        # executions open at a time: they are told apart by the level
+        # (and the namespace object: 'with only' starts a new one at level 0)
+        return (bid, id(ev.md), ev.level) if bid in recbids else bid
     last = {}       # body key -> (pos, event, index)
-    last_idx = {}   # body id -> index of its latest event
+    last_idx = {}   # body key -> index of its latest event
     for i, ev in enumerate(env.log):
         ps = parse_sent(ev.site)
         if ps is None or ev.md is None:
             continue
         bid, pos = ps
-        key = (bid, ev.level) if rec and bid == 'r' else bid
+        key = (bid, ev.level) if rec and bid == 'r' else keyof(bid, ev)
         prev = last.get(key)
         if prev is not None and pos > prev[0] and not any(
-                last_idx.get(a, -1) > prev[2] for a in ancestors(bid)):
+                last_idx.get(keyof(a, ev), -1) > prev[2]
+                for a in ancestors(bid)):
             if not same_snapshot(prev[1], ev):
                 what = 'level' if (prev[1].md is ev.md and len(
                     prev[1].data) == len(ev.data) and all(
@@ -567,7 +637,7 @@ def check(case, prep, env, outcome, md0, before, plan):
             # rule 3: first sentinel extends the enclosing body's latest one
             p = parents.get(bid)
             if p and p[0] is not None and p[1] not in ('with_only', 'sub'):
-                pe = last.get(p[0])
+                pe = last.get(keyof(p[0], ev))
                 if pe is not None and pe[1].md is ev.md:
                     a, b = pe[1], ev
                     if not (len(b.data) >= len(a.data) and all(
@@ -578,7 +648,7 @@ def check(case, prep, env, outcome, md0, before, plan):
                                              'inner': describe(b)}})
                         break
         last[key] = (pos, ev, i)
-        last_idx[bid] = i
+        last_idx[key] = i
     for x in v:
         x['detail']['plan'] = plan
         x['detail']['source'] = prep['src'][:1500]
@@ -664,6 +734,15 @@ def _run_case(case):
                 probe('finally_ran_with_pending_exception')
             if len(env.fired) > 1:
                 probe('pair_second_fault_fired')
+        if any(e.site.startswith('RC') and e.ordinal >= 2 for e in env.log):
+            probe('recursive_sub_template_reentered')
+        if any(e.md is not None and any(
+                e.data[i] is e.data[i + 1] for i in range(len(e.data) - 1))
+                for e in env.log):
+            probe('same_object_pushed_twice')
+        if '_.namespace(cm=6)' in prep['src'] + ''.join(
+                t_.read() for t_ in prep['subs'].values()):
+            probe('client_path_of_two')
         if ' header="' in prep['src'] or ' footer="' in prep['src']:
             probe('tree_header_footer_document')
         if any(e.md is not None and any(
@@ -792,7 +871,9 @@ def shrink(case):
         n = b['n']
         for i, x in enumerate(n):
             yield dict(b, n=n[:i] + n[i + 1:])
-            if x['k'] != 'sent':
+            if x['k'] != 'sent' and not (
+                    x['k'] == 'if' and x['conds'][0]['c'].get(
+                        'site', '')[:2] == 'RC'):
                 for sub, _ in E.child_bodies(x):
                     yield dict(b, n=n[:i] + sub['n'] + n[i + 1:])
         for i, x in enumerate(n):
